@@ -131,6 +131,7 @@ def standard_main(prop, prop_files, tier, seed, cases, rule, what, metamorphic=N
 def base_case(rng, **kw):
     data, nodes, lits = S.gen_typed_data(rng, n_iri=rng.randint(2, 5), n_bn=rng.randint(0, 1), n_lit=rng.randint(0, 2), n_triples=rng.randint(2, 12))
     shapes = S.gen_shapes(rng, nodes, lits, n_shapes=rng.randint(2, 7), **kw)
+    S.add_templates(rng, shapes, nodes, lits)
     return {"shapes": shapes, "sg": S.shapes_to_rdf(shapes), "data": data, "nodes": nodes, "lits": lits}
 
 
